@@ -116,6 +116,25 @@ void suite_isal(int tier) {
             stripe_free(&s);
             stat_add("isal.small_codes", 1);
         }
+        /* sequences of calls on one instance: every erasure set whose surviving rows are invertible, followed at
+           once by its one-element extensions (when those are invertible too) */
+        for (int n = 3; n <= (tier ? 9 : 7); n++) for (int k = 1; k < n - 1; k++) {
+            cfg_t c = { be, k, n - k, n - k, 1 + (int)rnd(2) };
+            stripe_t s;
+            if (stripe_make(&s, c, 1 + rnd(6 * k), 0, 0) != 0) continue;
+            for (uint64_t e1 = 1; e1 < (1ull << n); e1++) {
+                if (__builtin_popcountll(e1) >= c.m || rows_invertible(c, e1) != 1) continue;
+                for (int j = 0; j < n; j++) {
+                    uint64_t e2 = e1 | (1ull << j);
+                    if (e2 == e1 || rows_invertible(c, e2) != 1) continue;
+                    sweep_dec(&s, e1, 0, 0, 0, "C19"); sweep_dec(&s, e2, 0, 0, 0, "C19");
+                    sweep_rec(&s, e1, __builtin_ctzll(e1), 0, "C19"); sweep_rec(&s, e2, j, 0, "C19"); sweep_rec(&s, e2, __builtin_ctzll(e1), 0, "C19");
+                    sweep_dec(&s, e1, 0, 0, 0, "C19");
+                    stat_add("isal.sequence_pairs", 1);
+                }
+            }
+            stripe_free(&s);
+        }
         /* gf_gen_rs_matrix is not MDS: hunt for erasure sets whose first k surviving rows are singular
            (exhaustively on the smallest shapes that have any, sampled on larger ones) and run the
            adapters on them — with exactly k survivors and with spare ones */
@@ -143,6 +162,8 @@ void suite_isal(int tier) {
                 stripe_free(&s);
             }
         }
+        /* shapes at the limits with erasure sets built from the boundary indexes (deterministic) */
+        { extern void sweep_boundary(int be, int rec, const char *prop, const char *statkey, int (*decodable)(cfg_t, uint64_t)); sweep_boundary(be, 1, "C19", "isal.boundary_sets", rows_invertible); }
         /* larger shapes up to k+m = 32, sampled erasure sets */
         for (int t = 0; t < (tier ? 120 : 16); t++) {
             int k = 1 + (int)rnd(31), m = 1 + (int)rnd(32 - k);
